@@ -267,6 +267,8 @@ type FnRun struct {
 	modelsUsed map[string]bool
 	calleesByContract map[string]bool
 	failKeysDone bool
+	notes map[string]bool
+	loopDone map[*ssa.BasicBlock]bool
 	errDisc map[string]bool
 	failKeyList []string
 	trustedCallees map[string]bool
@@ -336,6 +338,7 @@ type State struct {
 	deferStacks [][]*deferRec
 	stack []*ssa.Function
 	skipCut ssa.Instruction
+	lastArgs map[string][]*V // actual arguments of the most recent direct call per callee (this activation, this path)
 	sink    *State // assumptions made while evaluating in this (earlier) state are recorded on the path of sink
 }
 
@@ -1048,4 +1051,12 @@ func pathOutside(v *V, path []int) bool {
 		v = v.F[i]
 	}
 	return false
+}
+
+
+func (r *FnRun) noteOnce(msg string) {
+	if r.notes == nil {
+		r.notes = map[string]bool{}
+	}
+	r.notes[msg] = true
 }
